@@ -14,6 +14,7 @@ import (
 	"math"
 	mrand "math/rand/v2"
 	"sort"
+	"strings"
 	"sync"
 	"testing"
 	"time"
@@ -310,6 +311,7 @@ func (w *vsLight) release(c *vsGetCall, kind int) {
 }
 
 func vsLightWorld(s *verifsim.Sim) {
+
 	crand.Reader = vsSeedRand(s)
 	w := &vsLight{s: s, roots: map[string]*vsRootState{}, active: map[uint64]int{}}
 	w.count = []int{1, 2, 4, 5, 16, 20}[s.Choose(6, "sample_count")]
@@ -463,7 +465,8 @@ func vsLightWorld(s *verifsim.Sim) {
 				old := la
 				// callers of the old instance are cancelled, the instance is closed (flush), a new one starts
 				instCancel()
-				s.Drain(500)
+				// only the calls in flight wind down; callers between two calls wait for the new instance
+				s.DrainIf(500, func(l string) bool { return !strings.HasSuffix(l, " next") && !strings.HasPrefix(l, "start caller") })
 				ctx, cancel := context.WithTimeout(context.Background(), time.Minute)
 				if err := old.Close(ctx); err != nil {
 					s.Note("Close: %v", err)
@@ -520,11 +523,18 @@ func vsLightWorld(s *verifsim.Sim) {
 func vsLightDraws(s *verifsim.Sim) {
 	rd := vsSeedRand(s)
 	crand.Reader = rd
-	width := []int{2, 4, 8, 16}[s.Choose(4, "eds_width")]
+	width := []int{2, 4, 8, 16, 64, 256, 512}[s.Choose(7, "eds_width")]
 	count := []int{1, 3, 4, 16, 20}[s.Choose(5, "sample_count")]
 	area := width * width
 	eff := min(count, area)
 	n := int(math.Ceil(45 * float64(area) / float64(eff))) // expected hits per cell >= 45: P(some cell never drawn) < 1e-16
+	wide := width > 16
+	if wide {
+		// wide squares (up to the largest extended width the network allows): too many cells to see each
+		// one drawn; the square is cut into 8x8 bands instead, each must be hit (expected hits per band >= 60)
+		n = int(math.Ceil(60 * 64 / float64(eff)))
+	}
+	bands := map[[2]int]int{}
 	s.Cfg["world"], s.Cfg["width"], s.Cfg["count"], s.Cfg["draws"] = "distribution", width, count, n
 	cells := map[shwap.SampleCoords]int{}
 	quad := [4]int{}
@@ -543,6 +553,7 @@ func vsLightDraws(s *verifsim.Sim) {
 			}
 			seen[c] = true
 			cells[c]++
+			bands[[2]int{c.Row * 8 / width, c.Col * 8 / width}]++
 			q := 0
 			if c.Row >= width/2 {
 				q += 2
@@ -556,7 +567,10 @@ func vsLightDraws(s *verifsim.Sim) {
 			s.Violate("c03-wrong-sample-count", "NewSamplingResult", "width %d count %d: drew %d distinct coordinates, want %d", width, count, len(seen), eff)
 		}
 	}
-	if len(cells) != area {
+	if wide && len(bands) != 64 {
+		s.Violate("c03-not-whole-square", "distribution-bands", "width %d count %d: after %d draws only %d of the 64 bands (8x8) of the extended square were ever drawn from", width, count, n, len(bands))
+	}
+	if !wide && len(cells) != area {
 		s.Violate("c03-not-whole-square", "distribution", "width %d count %d: after %d draws only %d of %d cells of the extended square were ever drawn", width, count, n, len(cells), area)
 	}
 	tot := float64(n * eff)
